@@ -130,10 +130,16 @@ def parseLines : List Str → Outcome (List Stmt)
     | .internal => .internal
     | .diverged => .diverged
 
+/-- the nesting budget of INCLUDE expansion: a file that is already being included is rejected, so a chain of nested
+files never holds the same file twice and cannot be longer than the number of files there are; one more level is never
+needed. (Python's own limit — its recursion limit, about 980 nested files — is reported as a diagnostic since fix
+"INCLUDE files are nested too deeply" and is not modelled.) -/
+def includeFuel (fs : Files) : Nat := fs.length + 1
+
 /-- `process_mnemonics(statements, including)`: INCLUDE expansion (after the repair: a file that cannot be read
 and a file that is already being included are TranslationErrors). `including` is the chain of files currently
-being processed. The Python recursion is bounded by the number of distinct files; fuel exhaustion (more than
-64 nested distinct files) stands for RecursionError (`internal`). -/
+being processed. The Python recursion is bounded by the number of distinct files, so with `includeFuel fs` the fuel
+is never exhausted (`expand_includeFuel_ne_internal`); the `internal` of fuel 0 is unreachable from `assemble`. -/
 def expand (fs : Files) : Nat → List Str → List Stmt → Outcome (List Stmt)
   | 0, _, _ => .internal
   | fuel + 1, including, stmts =>
@@ -501,7 +507,7 @@ def evalSyms (ss : List Stmt) (t : SymTab) : SymTab → Outcome SymTab
 def assemble (fs : Files) (lines : List Str) : Outcome Assembly :=
   match parseLines lines with
   | .ok parsed =>
-    match expand fs 64 [] parsed with
+    match expand fs (includeFuel fs) [] parsed with
     | .ok ss0 =>
       match buildSymTab ss0 0 [] with
       | none => .diag
